@@ -52,14 +52,23 @@ def apply(x: Keyvalues, y: Keyvalues, a: dict):
     elif op == 'add':
         z = x + y
         res = proj(z)
+        for c in list(z):       # the result must own its children
+            if c.has_children():
+                c.append(Keyvalues('zz', 'zz'))
+        z.append(Keyvalues('zz', 'zz'))
     elif op == 'copymut':
         z = x.copy()
         z[a['name']] = a['val']
-        for c in z:     # reach into every child too: a shallow copy would share them
-            if c.has_children():
-                c.append(Keyvalues('zz', 'zz'))
-                del c['zz']
         res = proj(z)
+        # then grow every block of the copy in place (also empty ones, at any depth): a copy that
+        # shares a child list with its source shows up as a changed left operand
+        def grow(kv):
+            for c in list(kv):
+                if c.has_children():
+                    grow(c)
+                    c.append(Keyvalues('zz', 'zz'))
+        grow(z)
+        z.append(Keyvalues('zz', 'zz'))
     elif op == 'ensure':
         x.ensure_exists(a['name'])
     elif op == 'merge':
